@@ -104,3 +104,19 @@ Example C16_nonvacuous :
   futs (run ex16_cfg (ex16_evs ++ ex16_rest)) = [] /\ rtypes (run ex16_cfg (ex16_evs ++ ex16_rest)) = [] /\
   sent_ids (ex16_evs ++ ex16_rest) = [].
 Proof. vm_compute. repeat split. Qed.
+
+(* ---- Link between the two endpoint models (Proofs/LinkEndpointOutgoing.v) ----
+   Endpoint.v (incoming side, with a coarse outgoing fragment) and Outgoing.v (outgoing side in detail)
+   describe the same tables. `project c evs` maps an Endpoint(X) history to the Outgoing events it
+   amounts to; `Rel` says the two tables agree entry by entry (same keys, same order, incoming entries
+   as FIn, outgoing as FOut) and the futures handed to send_request callers have the same state.
+   This replaces "nothing else is claimed about the composition": the composition IS claimed. *)
+From Pygls Require Proofs.LinkEndpointOutgoing.
+Theorem C16_link : forall c evs,
+  LinkEndpointOutgoing.Rel (runx c evs) (Outgoing.run (LinkEndpointOutgoing.project c evs)).
+Proof. exact LinkEndpointOutgoing.link_run. Qed.
+Print Assumptions C16_link.
+(* both tables are empty after every Endpoint history that ends quiescent and whose projection meets
+   C16_outgoing's hypotheses with every outgoing request answered *)
+Definition C16_composed_tables := LinkEndpointOutgoing.C16_composed.
+Print Assumptions C16_composed_tables.
